@@ -1,8 +1,77 @@
-/- Driver handlers for area `limits` (stub: replace `handle`). -/
+/- Driver handlers for area `limits` (C17): event size / field-length limits. -/
 import VDriver.Util
+import VModel.Limits
+import VModel.Vertable
+import VGen.Versions
+import VGen.C17
 namespace V.Driver.LimitsOps
-open V V.Driver
+open V V.Driver V.Limits
 
-def handle (_op : String) (_args : Array String) : Option String := none
+def paramsOf (ver : String) : Option Params := Vertable.limitsParams ver
+
+def isValidUTF8 (b : Bytes) : Bool := (String.fromUTF8? (ByteArray.mk b.toArray)).isSome
+
+/-- the label the generator attaches to an op: which limits the event exceeds (so that a finding can be
+    described by shape); recomputed here, a wrong label is a harness bug -/
+def shapeOf (s : Sizes) : String :=
+  let parts : List String :=
+    (if s.jsonLen > 65536 then ["json"] else []) ++
+    (if s.typeCP > 255 then ["type.cp"] else if s.typeBytes > 255 then ["type.b"] else []) ++
+    (if s.hasStateKey && s.skCP > 255 then ["sk.cp"] else if s.hasStateKey && s.skBytes > 255 then ["sk.b"] else []) ++
+    (if s.sender.cp > 255 then ["sender.cp"] else if s.sender.bytes > 255 then ["sender.b"] else []) ++
+    (if s.room.cp > 255 then ["room.cp"] else if s.room.bytes > 255 then ["room.b"] else [])
+  if parts.isEmpty then "within" else "+".intercalate parts
+
+/-- ops: trusted | untrusted | build  <ver> <shape> <jsonlen> <type> <state_key or ~> <sender> <room_id>
+    (fields hex; the three ops differ only in the entry point the harness drives): the class the property
+    distinguishes, ok | refused | persistable, from the model and from the specification;
+    trusted_fine | untrusted_fine | build_fine: the error kind, ok | err:other | err:toolarge |
+    err:toolarge-persistable, from the model only;
+    untrusted_badhash[_fine] <ver> <shape> <jsonlen> <redactedlen> <type> <state_key or ~> <sender> <room_id>:
+    receipt of an event whose content hash does not match -/
+def handle (op : String) (args : Array String) : Option String :=
+  let fine := op.endsWith "_fine"
+  let base := if fine then (op.dropEnd 5).toString else op
+  if base != "trusted" && base != "untrusted" && base != "build" && base != "untrusted_badhash" then none else
+  match args.toList with
+  | [ver, shape, jl, rl, ty, sk, se, ro] =>
+    -- untrusted_badhash: the event as received has `jl` bytes, its redacted form `rl`
+    if base != "untrusted_badhash" then some "bad-op" else
+    match paramsOf ver, jl.toNat?, rl.toNat?, unhex ty, (if sk == "~" then some none else (unhex sk).map some), unhex se, unhex ro with
+    | some p, some n, some r, some ty, some sk, some se, some ro =>
+      if !(isValidUTF8 ty && isValidUTF8 (sk.getD []) && isValidUTF8 se && isValidUTF8 ro) then some "skip:field is not valid UTF-8" else
+      let s := sizesOf n ty sk se ro
+      if shapeOf s != shape then some "bad-shape-label" else
+      if fine then some (verdictBadHash p s r).show else
+      let m := (verdictBadHash p s r).coarse
+      -- specification: the event AS RECEIVED is what the property's limits apply to
+      let sp := match Vertable.Spec.traitsOf ver with
+        | none => "unspecified:unknown-version"
+        | some t =>
+          match Spec.verdict t.domainlessRoomIDs (ver == "org.matrix.msc4014") s with
+          | none => "unspecified:malformed-sender-or-room-id"
+          | some o => o.coarse
+      some (m ++ "\t" ++ sp)
+    | _, _, _, _, _, _, _ => some "bad-op"
+  | [ver, shape, jl, ty, sk, se, ro] =>
+    match paramsOf ver, jl.toNat?, unhex ty, (if sk == "~" then some none else (unhex sk).map some), unhex se, unhex ro with
+    | some p, some n, some ty, some sk, some se, some ro =>
+      if !(isValidUTF8 ty && isValidUTF8 (sk.getD []) && isValidUTF8 se && isValidUTF8 ro) then
+        some "skip:field is not valid UTF-8 (encoding/json would have replaced bytes; runeCount is modelled on valid UTF-8 only)"
+      else
+        let s := sizesOf n ty sk se ro
+        if shapeOf s != shape then some "bad-shape-label" else
+        if fine then some (verdict p s).show else
+        let m := (verdict p s).coarse
+        let st := Vertable.Spec.traitsOf ver
+        let sp := match st with
+          | none => "unspecified:unknown-version"
+          | some t =>
+            match Spec.verdict t.domainlessRoomIDs (ver == "org.matrix.msc4014") s with
+            | none => "unspecified:malformed-sender-or-room-id"
+            | some o => o.coarse
+        some (m ++ "\t" ++ sp)
+    | _, _, _, _, _, _ => some "bad-op"
+  | _ => some "bad-op"
 
 end V.Driver.LimitsOps
